@@ -65,6 +65,21 @@ def replay_state(args):
                     check_extent(t, xmin[k], xmax[k], op)
             except Exception as ex:
                 bad.append(("C06.no-error", dict(op=op, exc=type(ex).__name__, cls="interior", **where0), None, repr(ex)[:200], None))
+        # whole-number bounds handed over as integer arrays / lists (the same values in another number type)
+        if np.all(lb == np.rint(lb)) and np.all(ub == np.rint(ub)):
+            reps = [("int arrays", lb.astype(int), ub.astype(int)), ("int lb, float ub", lb.astype(int), ub.copy()), ("lists", [int(v) for v in lb], [int(v) for v in ub])]
+            for rname, lbr, ubr in reps:
+                try:
+                    xmin, xmax = dreye.range_of_solutions(B, A, lbr, ubr, K=(None if K is None else np.atleast_1d(K)), baseline=bl)
+                    for k, t in enumerate(interior):
+                        check_extent(t, np.asarray(xmin, float)[k], np.asarray(xmax, float)[k], "range_of_solutions(%s)" % rname)
+                    e2 = dsys.make_estimator(dreye, s)
+                    e2.register_bounds(lb=lbr, ub=ubr)
+                    xmin, xmax = e2.range_of_solutions(B)
+                    for k, t in enumerate(interior):
+                        check_extent(t, np.asarray(xmin, float)[k], np.asarray(xmax, float)[k], "ReceptorEstimator.range_of_solutions(%s)" % rname)
+                except Exception as ex:
+                    bad.append(("C06.no-error", dict(op="range_of_solutions(%s)" % rname, exc=type(ex).__name__, cls="interior", **where0), None, repr(ex)[:200], None))
         # a single target passed as a 1-D vector: 1-D answers equal to the batch row
         try:
             x0, x1 = est.range_of_solutions(B[0].copy())
